@@ -19,11 +19,22 @@ def Agrees (D : Decls) (v : Val) (τ : Ty) : Prop := τ.isLoose = true ∨ HasTy
 
 def Good (D : Decls) (o : Out) (τ : Ty) : Prop := o ≠ .noneDeref ∧ ∀ v, o = .val v → Agrees D v τ
 
-/-- A fact about `e` established in an enclosing scope `(Γ0, ρ0)`: there `e` was well-typed and
-evaluated to a non-`None` value, and the current environments only added variables since. -/
-def FactOK (key : Expr → κ) (Γ : TEnv) (ρ : Env) (e : Expr) : Prop :=
-  ∃ (Γ0 : TEnv) (ρ0 : Env) (F' : Facts κ) (τ : Ty), infer key Γ0 F' e = .ok τ ∧ AgreeOn Γ0 ρ0 ρ ∧
-    (∀ y, (Γ0.find y).isSome = true → (Γ.find y).isSome = true) ∧ ∃ v, eval ρ0 e = .val v ∧ v ≠ .none
+/-- What the proof needs of the keys: two expressions with the same key have the same value in
+every environment.  (Injective keys trivially; the real canonical strings identify `f"x"` with
+`"x"`, which is harmless.) -/
+def KeySound (key : Expr → κ) : Prop := ∀ e1 e2, key e1 = key e2 → ∀ ρ, eval ρ e1 = eval ρ e2
+
+theorem KeySound.of_injective {key : Expr → κ} (h : Function.Injective key) : KeySound key := by
+  intro e1 e2 hk ρ
+  rw [h hk]
+
+/-- A fact about `e` established in an enclosing scope `(Γ0, ρ0)`: in every environment that only
+adds variables to that scope `e` evaluates to a non-`None` value, and the current environments
+are such extensions. -/
+def FactOK (Γ : TEnv) (ρ : Env) (e : Expr) : Prop :=
+  ∃ (Γ0 : TEnv) (ρ0 : Env), AgreeOn Γ0 ρ0 ρ ∧
+    (∀ y, (Γ0.find y).isSome = true → (Γ.find y).isSome = true) ∧
+    ∀ ρ', AgreeOn Γ0 ρ0 ρ' → ∃ v, eval ρ' e = .val v ∧ v ≠ .none
 
 /-- The invariant of the traversal. -/
 structure Inv (key : Expr → κ) (Γ : TEnv) (F : Facts κ) (ρ : Env) : Prop where
@@ -32,7 +43,7 @@ structure Inv (key : Expr → κ) (Γ : TEnv) (F : Facts κ) (ρ : Env) : Prop w
   safe : EnvSafe ρ
   calls : CallsConform ρ Γ
   /-- every assumed fact is true: the expression with that key evaluates to a non-`None` value -/
-  facts : ∀ e, key e ∈ F → FactOK key Γ ρ e
+  facts : ∀ e, key e ∈ F → FactOK Γ ρ e
 
 theorem HasTy.prim_ne_none {D : Decls} {v : Val} {p : Prim} (h : HasTy D v (.prim p)) (hp : p ≠ .none) :
     v ≠ .none := by
@@ -91,20 +102,21 @@ variable {key : Expr → κ}
 
 theorem Inv.fact_val {Γ : TEnv} {F : Facts κ} {ρ : Env} (inv : Inv key Γ F ρ) {e : Expr} (hk : key e ∈ F) :
     ∃ v, eval ρ e = .val v ∧ v ≠ .none := by
-  obtain ⟨Γ0, ρ0, F', τ, hinf, hag, _, v, hv, hne⟩ := inv.facts e hk
-  exact ⟨v, by rw [eval_agree e Γ0 F' ρ0 ρ τ hinf hag]; exact hv, hne⟩
+  obtain ⟨Γ0, ρ0, hag, _, hall⟩ := inv.facts e hk
+  exact hall ρ hag
 
-theorem Inv.addFact {Γ : TEnv} {F : Facts κ} {ρ : Env} (hk : Function.Injective key) (inv : Inv key Γ F ρ)
+theorem Inv.addFact {Γ : TEnv} {F : Facts κ} {ρ : Env} (hk : KeySound key) (inv : Inv key Γ F ρ)
     {x : Expr} (hx : ∃ w, eval ρ x = .val w ∧ w ≠ .none) (ht : ∃ (F' : Facts κ) (τ : Ty), infer key Γ F' x = .ok τ) :
     Inv key Γ (key x :: F) ρ :=
   { inv with
     facts := by
       intro e he
       rcases List.mem_cons.mp he with h | h
-      · have : e = x := hk h
-        subst this
-        obtain ⟨F', τ, hinf⟩ := ht
-        exact ⟨Γ, ρ, F', τ, hinf, AgreeOn.refl Γ ρ, fun _ h => h, hx⟩
+      · obtain ⟨F', τ, hinf⟩ := ht
+        refine ⟨Γ, ρ, AgreeOn.refl Γ ρ, fun _ h => h, ?_⟩
+        intro ρ' hag
+        rw [hk e x h ρ', eval_agree x Γ F' ρ ρ' τ hinf hag]
+        exact hx
       · exact inv.facts e h }
 
 theorem isNotNone_inf {Γ : TEnv} {F : Facts κ} {x : Expr} {τ : Ty} (h : infer key Γ F (.isNotNone x) = .ok τ) :
@@ -123,7 +135,7 @@ theorem isNone_inf {Γ : TEnv} {F : Facts κ} {x : Expr} {τ : Ty} (h : infer ke
   | err es => simp [hx] at h
   | crash s => simp [hx] at h
 
-theorem Inv.andFact {Γ : TEnv} {F : Facts κ} {ρ : Env} (hk : Function.Injective key) (inv : Inv key Γ F ρ)
+theorem Inv.andFact {Γ : TEnv} {F : Facts κ} {ρ : Env} (hk : KeySound key) (inv : Inv key Γ F ρ)
     {e : Expr} {v : Val} (h : eval ρ e = .val v) (ht : v.truthy ρ.fops = true)
     (hinf : ∃ (F' : Facts κ) (τ : Ty), infer key Γ F' e = .ok τ) :
     Inv key Γ (andFact key F e) ρ := by
@@ -131,7 +143,7 @@ theorem Inv.andFact {Γ : TEnv} {F : Facts κ} {ρ : Env} (hk : Function.Injecti
   obtain ⟨F', τ, hinf⟩ := hinf
   exact inv.addFact hk (isNotNone_truthy h ht) (isNotNone_inf hinf)
 
-theorem Inv.orFact {Γ : TEnv} {F : Facts κ} {ρ : Env} (hk : Function.Injective key) (inv : Inv key Γ F ρ)
+theorem Inv.orFact {Γ : TEnv} {F : Facts κ} {ρ : Env} (hk : KeySound key) (inv : Inv key Γ F ρ)
     {e : Expr} {v : Val} (h : eval ρ e = .val v) (ht : v.truthy ρ.fops = false)
     (hinf : ∃ (F' : Facts κ) (τ : Ty), infer key Γ F' e = .ok τ) :
     Inv key Γ (orFact key F e) ρ := by
@@ -184,7 +196,7 @@ theorem evalAnd_truthy_all {ρ : Env} : ∀ (vs : List Expr) {v : Val}, evalAnd 
         exact absurd ht hw
     | _ => simp [he] at h
 
-theorem Inv.andFacts {Γ : TEnv} {ρ : Env} (hk : Function.Injective key) :
+theorem Inv.andFacts {Γ : TEnv} {ρ : Env} (hk : KeySound key) :
     ∀ (vs : List Expr) {F : Facts κ}, Inv key Γ F ρ →
       (∀ e, e ∈ vs → ∃ w, eval ρ e = .val w ∧ w.truthy ρ.fops = true) →
       (∀ e, e ∈ vs → ∃ (F' : Facts κ) (τ : Ty), infer key Γ F' e = .ok τ) → Inv key Γ (andFacts key F vs) ρ
@@ -195,7 +207,7 @@ theorem Inv.andFacts {Γ : TEnv} {ρ : Env} (hk : Function.Injective key) :
     exact Inv.andFacts hk es (inv.andFact hk hw htr (ht e (by simp))) (fun e' he' => h e' (by simp [he']))
       (fun e' he' => ht e' (by simp [he']))
 
-theorem Inv.implFacts {Γ : TEnv} {F : Facts κ} {ρ : Env} (hk : Function.Injective key) (inv : Inv key Γ F ρ)
+theorem Inv.implFacts {Γ : TEnv} {F : Facts κ} {ρ : Env} (hk : KeySound key) (inv : Inv key Γ F ρ)
     {a : Expr} {v : Val} (h : eval ρ a = .val v) (ht : v.truthy ρ.fops = true)
     {τ : Ty} (hinf : infer key Γ F a = .ok τ) :
     Inv key Γ (implFacts key F a) ρ := by
@@ -240,8 +252,8 @@ theorem Inv.bind {Γ : TEnv} {F : Facts κ} {ρ : Env} (inv : Inv key Γ F ρ) {
           inv.calls.funs n m ret f vs v (h.imp (fun h => hfind n _ h rfl) (fun h => hfind n _ h rfl)) hf hv
         meths := inv.calls.meths }
   · intro e he
-    obtain ⟨Γ0, ρ0, F', τ, hinf, hag, hsub, hv⟩ := inv.facts e he
-    refine ⟨Γ0, ρ0, F', τ, hinf, ?_, ?_, hv⟩
+    obtain ⟨Γ0, ρ0, hag, hsub, hv⟩ := inv.facts e he
+    refine ⟨Γ0, ρ0, ?_, ?_, hv⟩
     · exact
         { funs := hag.funs, meths := hag.meths, fops := hag.fops, fmtOther := hag.fmtOther
           vars := by
